@@ -322,13 +322,23 @@ Fixpoint exec_queue (now : Z) (st : state) (cid : N) (q : list (list bytes)) : s
     match cmd with
     | [] => exec_queue now st cid r
     | name :: args =>
+      (* every queued command reads the clock itself: time moves on between two of them
+         (EXPIRE k 0 followed by a read of k in the same transaction finds k gone) *)
       let o := run_plain now st cid (lower name) args true in
-      let '(st', rs) := exec_queue now (o_st o) cid r in
+      let '(st', rs) := exec_queue (now + 1) (o_st o) cid r in
       (st', o_reply o :: rs)
     end
   end.
 
 (* the emulator: one command of connection cid *)
+(* a command rejected for its arity while a transaction is open flags the transaction
+   (also MULTI/EXEC/DISCARD themselves: MULTI x, EXEC x, DISCARD x) *)
+Definition flag_tx (st : state) (cid : N) (c : conn) : state :=
+  match c_queue c with
+  | Some q => set_conn st cid (mkConn (c_sel c) (c_resp c) (c_name c) (Some q) true (c_watch c))
+  | None => st
+  end.
+
 Definition step (now : Z) (st : state) (cid : N) (cmd : list bytes) : outcome :=
   match cmd with
   | [] => mkOut st (err "ERR Invalid command input") false
@@ -346,17 +356,21 @@ Definition step (now : Z) (st : state) (cid : N) (cmd : list bytes) : outcome :=
       match args, c_queue c with
       | [], None => mkOut (set_conn st cid (mkConn (c_sel c) (c_resp c) (c_name c) (Some []) false (c_watch c))) ok false
       | [], Some _ => mkOut st (err "ERR MULTI calls can not be nested") false
-      | _, _ => mkOut st argerr false
+      | _, _ => mkOut (flag_tx st cid c) argerr false
       end
     else if is "discard" then
       match args, c_queue c with
       | [], Some _ => mkOut (set_conn st cid (reset_tx c)) ok false
       | [], None => mkOut st (err "ERR DISCARD without MULTI") false
-      | _, _ => mkOut st argerr false
+      | _, _ => mkOut (flag_tx st cid c) argerr false
       end
     else if is "watch" then
       match c_queue c with
-      | Some _ => mkOut st (err "ERR WATCH inside MULTI is not allowed") false
+      | Some _ =>
+        match args with
+        | [] => mkOut (flag_tx st cid c) argerr false
+        | _ => mkOut st (err "ERR WATCH inside MULTI is not allowed") false
+        end
       | None =>
         match args with
         | [] => mkOut st argerr false
@@ -370,7 +384,7 @@ Definition step (now : Z) (st : state) (cid : N) (cmd : list bytes) : outcome :=
       end
     else if is "exec" then
       match args, c_queue c with
-      | _ :: _, _ => mkOut st argerr false
+      | _ :: _, _ => mkOut (flag_tx st cid c) argerr false
       | [], None => mkOut st (err "ERR EXEC without MULTI") false
       | [], Some q =>
         if c_qerr c then
